@@ -109,7 +109,7 @@ func (muxer *Muxer) process() {
 		muxer.recvQueue.Reset()
 	}()
 
-	var packSequenceHeader bool
+	var packMetadata, packSequenceHeader bool
 
 	for !muxer.closed {
 		verifPoint("flvmux.before-pop", muxer)
@@ -121,26 +121,41 @@ func (muxer *Muxer) process() {
 			continue
 		}
 
-		if !packSequenceHeader{
-			muxer.muxMetadataTag()
-			muxer.vp.PacketizeSequenceHeader()
-			muxer.ap.PacketizeSequenceHeader()
-			packSequenceHeader = true
-		}
-		
-		frame := f.(*codec.Frame)
+		muxer.mux(f.(*codec.Frame), &packMetadata, &packSequenceHeader)
+	}
+}
 
-		switch frame.MediaType {
-		case codec.MediaTypeVideo:
-			if err := muxer.vp.Packetize(frame); err != nil {
-				muxer.logger.Errorf("flvmuxer: muxVideoTag error - %s", err.Error())
-			}
-		case codec.MediaTypeAudio:
-			if err := muxer.ap.Packetize(frame); err != nil {
-				muxer.logger.Errorf("flvmuxer: muxAudioTag error - %s", err.Error())
-			}
-		default:
+// mux converts one frame. A panic raised while converting it (malformed
+// input, parameter sets not there yet) is logged and the frame dropped; the
+// conversion goroutine keeps serving the frames that follow, and the sequence
+// headers are tried again with the next frame.
+func (muxer *Muxer) mux(frame *codec.Frame, packMetadata, packSequenceHeader *bool) {
+	defer func() {
+		if r := recover(); r != nil {
+			muxer.logger.Errorf("flvmuxer: frame dropped, panic；r = %v \n %s", r, debug.Stack())
 		}
+	}()
+
+	if !*packSequenceHeader {
+		if !*packMetadata {
+			muxer.muxMetadataTag()
+			*packMetadata = true
+		}
+		muxer.vp.PacketizeSequenceHeader()
+		muxer.ap.PacketizeSequenceHeader()
+		*packSequenceHeader = true
+	}
+
+	switch frame.MediaType {
+	case codec.MediaTypeVideo:
+		if err := muxer.vp.Packetize(frame); err != nil {
+			muxer.logger.Errorf("flvmuxer: muxVideoTag error - %s", err.Error())
+		}
+	case codec.MediaTypeAudio:
+		if err := muxer.ap.Packetize(frame); err != nil {
+			muxer.logger.Errorf("flvmuxer: muxAudioTag error - %s", err.Error())
+		}
+	default:
 	}
 }
 
